@@ -29,6 +29,7 @@ RULE_TEXT = (
     "C01.c3 abstract frames as row intervals: for n in 0..6 x chunk_size in {None,1,2,3,4,7} the inserted intervals "
     "partition [0,n) and the reported count is n; C01.e/f = C08.a/b/d; C01.g CLONE wiring (target, source)."
     " C01.c also: on every path of _insert_df the JSON encoder is applied to the object columns (skipped only when the frame has none)."
+    " C01.c4 without overwrite none of write_pandas' own statements is CREATE OR REPLACE / DROP / TRUNCATE / DELETE."
 )
 TRUSTED = ["CPython ast", "sqlglot duckdb generator TYPE_MAPPING (read from source)", "Snowflake documented storage widths",
            "DuckDB type widths: REAL 32-bit, DOUBLE 64-bit, TINYINT<SMALLINT<INTEGER<BIGINT<HUGEINT<=DECIMAL(38,0), TIMESTAMP us"]
